@@ -123,6 +123,27 @@ pub fn exported_fns(dir: &Path) -> Vec<FnSig> {
             }
             pos = end;
         }
+        // interfaces implemented by a derive macro export their functions too (the generated
+        // `#[contractimpl] impl ... for Contract` never appears in the source)
+        let mut pos = 0;
+        while let Some(i) = src[pos..].find("#[derive(") {
+            let at = pos + i + "#[derive(".len();
+            let Some(close) = src[at..].find(')').map(|k| at + k) else { break };
+            for d in src[at..close].split(',').map(|d| d.trim()) {
+                let f = |name: &str, params: &[(&str, &str)]| FnSig { name: name.into(), params: params.iter().map(|(n, t)| (n.to_string(), t.to_string())).collect() };
+                match d {
+                    "Ownable" => { out.push(f("owner", &[])); out.push(f("transfer_ownership", &[("new_owner", "Address")])); }
+                    "Operatable" => { out.push(f("operator", &[])); out.push(f("transfer_operatorship", &[("new_operator", "Address")])); }
+                    "Upgradable" => {
+                        out.push(f("version", &[]));
+                        out.push(f("upgrade", &[("new_wasm_hash", "BytesN<32>")]));
+                        out.push(f("migrate", &[("migration_data", "()")]));
+                    }
+                    _ => {}
+                }
+            }
+            pos = close;
+        }
     }
     out
 }
@@ -142,6 +163,7 @@ pub fn synth(w: &World, ty: &str, addresses: &[Address]) -> Option<Vec<Val>> {
         "u128" => vec![w.v(0u128), w.v(1u128)],
         "i128" => vec![w.v(0i128), w.v(1i128), w.v(-1i128)],
         "bool" => vec![w.v(false), w.v(true)],
+        "()" => vec![Val::VOID.to_val()],
         _ if t.starts_with("Option<") => vec![Val::VOID.to_val()],
         _ if t.starts_with("Vec<") => vec![to_val(env, &svec(vec![]))],
         _ => return None,
@@ -200,14 +222,16 @@ pub fn unknown_calls(w: &World, id: &str, targets: &[(&Address, &str, &[&str])],
     out
 }
 
-pub const GATEWAY_KNOWN: [&str; 14] = [
+pub const GATEWAY_KNOWN: [&str; 21] = [
+    "owner", "transfer_ownership", "operator", "transfer_operatorship", "version", "upgrade", "migrate",
     "__constructor", "call_contract", "is_message_approved", "is_message_executed", "validate_message", "domain_separator",
     "minimum_rotation_delay", "previous_signers_retention", "approve_messages", "rotate_signers", "epoch", "epoch_by_signers_hash",
     "signers_hash_by_epoch", "validate_proof",
 ];
-pub const GAS_KNOWN: [&str; 6] = ["__constructor", "pay_gas", "add_gas", "collect_fees", "refund", "gas_collector"];
-pub const OPERATORS_KNOWN: [&str; 5] = ["__constructor", "is_operator", "add_operator", "remove_operator", "execute"];
-pub const ITS_KNOWN: [&str; 21] = [
+pub const GAS_KNOWN: [&str; 11] = ["owner", "transfer_ownership", "version", "upgrade", "migrate", "__constructor", "pay_gas", "add_gas", "collect_fees", "refund", "gas_collector"];
+pub const OPERATORS_KNOWN: [&str; 10] = ["owner", "transfer_ownership", "version", "upgrade", "migrate", "__constructor", "is_operator", "add_operator", "remove_operator", "execute"];
+pub const ITS_KNOWN: [&str; 26] = [
+    "owner", "transfer_ownership", "version", "upgrade", "migrate",
     "__constructor", "chain_name", "gas_service", "interchain_token_wasm_hash", "its_hub_address", "its_hub_chain_name", "is_trusted_chain",
     "set_trusted_chain", "remove_trusted_chain", "interchain_token_deploy_salt", "interchain_token_id", "canonical_token_deploy_salt",
     "token_address", "token_manager_type", "deploy_interchain_token", "deploy_remote_interchain_token", "deploy_remote_canonical_token",
@@ -215,7 +239,8 @@ pub const ITS_KNOWN: [&str; 21] = [
 ];
 /// (the asset-interface stubs set_authorized / authorized / clawback are deliberately absent: they
 /// abort today, and are driven like any unknown function should they ever do something)
-pub const TOKEN_KNOWN: [&str; 21] = [
+pub const TOKEN_KNOWN: [&str; 24] = [
+    "version", "upgrade", "migrate",
     "__constructor", "set_admin", "admin", "mint", "token_id", "is_minter", "mint_from", "add_minter", "remove_minter", "allowance", "approve",
     "balance", "transfer", "transfer_from", "burn", "burn_from", "decimals", "name", "symbol", "owner", "transfer_ownership",
 ];
